@@ -237,6 +237,7 @@ def parseSV : Nat → List String → Nat → Option (SV × List String × Nat)
       match rest with
       | rid :: r => rid.toNat?.map fun rid => (.aw rid, r, nt)
       | [] => none
+    else if t == "lw" then (parseExpr (f + 1) rest).map fun (e, r) => (.lw e, r, nt)
     else none
 
 def hasTraS : SV → Bool
@@ -275,6 +276,7 @@ def svOk (k nres : Nat) : SV → Bool → Bool → Bool
   | .sus kid, r, _ => svOk k nres kid r true
   | .tra _ kid, r, _ => fixedS kid && svOk k nres kid r true
   | .aw rid, _, b => b && rid < nres
+  | .lw sel, r, _ => sel.okL k 0 r
 
 /-! ## printing -/
 
@@ -292,9 +294,16 @@ def insertSorted (x : String × String) : List (String × String) → List (Stri
 def sortPairs (l : List (String × String)) : List (String × String) := l.foldl (fun acc x => insertSorted x acc) []
 
 def attrText (outs : List AOut) : String :=
-  let plain := outs.filterMap fun o => match o with | .plain n v => some (n, v.str) | _ => none
+  -- a reactive attribute / style declaration with the value 0 is absent (the closure returned `None`)
+  let plain := outs.filterMap fun o => match o with
+    | .plain _ (.int 0) => none
+    | .plain n v => some (n, v.str)
+    | _ => none
   let toks := sortPairs (outs.filterMap fun o => match o with | .cls n true => some (n, "") | _ => none)
-  let decls := sortPairs (outs.filterMap fun o => match o with | .sty n v => some (n, v.str) | _ => none)
+  let decls := sortPairs (outs.filterMap fun o => match o with
+    | .sty _ (.px 0) => none
+    | .sty n v => some (n, v.str)
+    | _ => none)
   let cls := if toks.isEmpty then [] else [("class", " ".intercalate (toks.map (·.1)))]
   let sty := if decls.isEmpty then [] else [("style", String.join (decls.map fun (n, v) => n ++ ":" ++ v ++ ";"))]
   "&".intercalate ((sortPairs (plain ++ cls ++ sty)).map fun (n, v) => n ++ "=" ++ hexStr v)
@@ -691,10 +700,15 @@ def outLine (d : DState) (pre : String) : DState × String :=
   let (v, d) := verdict d
   (d, pre ++ "ready=" ++ natList r ++ " dom=" ++ dom ++ v)
 
-/-- an S view: the line after an operation (the executor has run to idle) -/
+/-- an S view: the line after an operation (the executor has run to idle); while a live `lw` leaf selects a gate that
+is still closed the DOM is not observed (`Model/SView.lean`) -/
+def sShow (st : SSt) : String :=
+  if !st.disposed && ((st.view.map fun v => SView.lwClosed st v 0).getD false) then "sdom=? ## ok"
+  else showSDom st.dom ++ " ## ok"
+
 def sLine (d : DState) : DState × String :=
   let st := d.sst.settle
-  ({ d with sst := st }, showSDom st.dom ++ " ## ok")
+  ({ d with sst := st }, sShow st)
 
 def stepLine (d : DState) (line : String) : DState × String :=
   match words line with
@@ -707,16 +721,37 @@ def stepLine (d : DState) (line : String) : DState × String :=
       match id.toNat?, parseInt v with
       | some id, some v =>
         match d.defs[id]? with
-        | some (.sig _) => if d.sst.disposed then sLine d else ({ d with sst := d.sst.step (.set id v) }, showSDom (d.sst.step (.set id v)).dom ++ " ## ok")
+        | some (.sig _) => if d.sst.disposed then sLine d else ({ d with sst := d.sst.step (.set id v) }, sShow (d.sst.step (.set id v)))
         | _ => (d, "bad-op")
       | _, _ => (d, "bad-op")
     | ["resolve", rid] =>
       match rid.toNat? with
       | some rid =>
         if rid < d.sst.res.length then
-          ({ d with sst := d.sst.step (.resolve rid) }, showSDom (d.sst.step (.resolve rid)).dom ++ " ## ok")
+          ({ d with sst := d.sst.step (.resolve rid) }, sShow (d.sst.step (.resolve rid)))
         else (d, "bad-op")
       | none => (d, "bad-op")
+    | ["open", g] =>
+      match g.toNat? with
+      | some g => if g < 4 then ({ d with sst := d.sst.step (.openGate g) }, sShow (d.sst.step (.openGate g))) else (d, "bad-op")
+      | none => (d, "bad-op")
+    -- the same operations without running the executor (only the resources' own tasks run): nothing is observed
+    | ["pset", id, v] =>
+      match id.toNat?, parseInt v with
+      | some id, some v =>
+        match d.defs[id]? with
+        | some (.sig _) => (if d.sst.disposed then d else { d with sst := d.sst.set id v }, "~")
+        | _ => (d, "bad-op")
+      | _, _ => (d, "bad-op")
+    | ["presolve", rid] =>
+      match rid.toNat? with
+      | some rid => if rid < d.sst.res.length then ({ d with sst := d.sst.resolve rid }, "~") else (d, "bad-op")
+      | none => (d, "bad-op")
+    | ["popen", g] =>
+      match g.toNat? with
+      | some g => if g < 4 then ({ d with sst := d.sst.openGate g }, "~") else (d, "bad-op")
+      | none => (d, "bad-op")
+    | ["poll", i] => if i.toNat?.isSome then (d, "~") else (d, "bad-op")
     | ["idle"] => sLine d
     | ["dispose"] => if d.sst.disposed then (d, "bad-op") else sLine { d with sst := { d.sst with disposed := true } }
     | _ => (d, "bad-op")
@@ -748,7 +783,7 @@ def stepLine (d : DState) (line : String) : DState × String :=
     | _ => (d, "bad-op")
   | "mount" :: toks =>
     if d.view.isSome || d.skip then (d, "bad-op") else
-    if toks.any fun t => t == "sus" || t == "tra" || t == "aw" then
+    if toks.any fun t => t == "sus" || t == "tra" || t == "aw" || t == "lw" then
       match parseSV (toks.length + 1) toks 0 with
       | some (v, [], _) =>
         if !(svOk d.defs.length d.sst.res.length v false false) then (d, "bad-op") else
